@@ -21,6 +21,9 @@ SPECS = {
     "generator": ('def make():\n    return "cc"\n<start> ::= <a> <b>\n<a> ::= "p" | "q"\n<b> ::= <c>+ := make()\n<c> ::= "c" | "cc"\n',
                   ["pcc", "cc", "pc"], "<b>"),
     "computed_rep": ('<start> ::= <n> <item>{int(<n>)}\n<n> ::= "1" | "2"\n<item> ::= "x" | "xx"\n', ["2xx", "1xx", "2xxx", "1x"], "<item>"),
+    # bit-level rules; requests may hand in a TREE instead of a word (what the search does with generator results):
+    # trees of 4 and of 8 bit leaves can serialise to the same byte
+    "bits": ('<start> ::= <b>{4} | <b>{8}\n<b> ::= 0 | 1\n', [b"\x05", b"\x50", b"\x05\x05"], "<b>"),
     "unambiguous": ('<start> ::= <k> ("," <k>)*\n<k> ::= r"[ab]+"\nwhere len(str(<start>)) < 4\n', ["a,b", "ab", "a,b,a", "a,"], "<k>"),
 }
 
@@ -54,7 +57,17 @@ def ops_for(name):
     ops += [("mutate_last", None)]
     if name == "generator":
         ops += [("fuzz", None)]
+    if name == "bits":
+        for bits in ("0101", "00000101", "0000", "00000000", "01010000"):
+            ops += [("forest_tree", bits), ("parse_tree", bits)]
     return ops
+
+
+def bits_tree(bits: str):
+    from fandango.language.symbols import NonTerminal, Terminal
+    from fandango.language.tree import DerivationTree
+    kids = [DerivationTree(NonTerminal("<b>"), [DerivationTree(Terminal(int(c)))]) for c in bits]
+    return DerivationTree(NonTerminal("<start>"), kids)
 
 
 def apply(spec, name, op, held):
@@ -96,6 +109,11 @@ def apply(spec, name, op, held):
             trees = list(g.parse_forest(w, start=inner))
         elif kind == "inner_parse":
             t = g.parse(w, start=inner)
+            trees = [t] if t is not None else []
+        elif kind == "forest_tree":
+            trees = list(g.parse_forest(bits_tree(w)))
+        elif kind == "parse_tree":
+            t = g.parse(bits_tree(w))
             trees = [t] if t is not None else []
         elif kind == "mutate_last":
             if not held:
